@@ -296,6 +296,31 @@ Definition run_strat (x : sx) : sx :=
          ebool (all_decls P (fun _ _ d => negb (d_rec d) || match d_params d with [] => true | _ => false end))]
   end.
 
+(** the uses among declarations: every pair (declaration, declaration mentioned in its right-hand side) *)
+Fixpoint occs (e : expr) : list (N * N) :=
+  match e with
+  | ETerm _ e' | ESub e' | EProp _ _ e' | EUnary _ e' | EArr e' | ERec _ _ _ e' => occs e'
+  | EDecl m i => [(m, i)]
+  | EApp f args => occs f ++ flat_map occs args
+  | EObj ps => flat_map occs ps
+  | EOp _ es => flat_map occs es
+  | ECont body metas => (match body with Some b => occs b | None => [] end) ++ flat_map (fun ke : N * expr => occs (snd ke)) metas
+  | EXfer _ dom rg prm =>
+      (match dom with Some b => occs b | None => [] end) ++ occs rg ++ (match prm with Some b => occs b | None => [] end)
+  | EUri segs prm =>
+      flat_map (fun sg : str + expr => match sg with inl _ => [] | inr e' => occs e' end) segs ++ (match prm with Some b => occs b | None => [] end)
+  | ERel u xs => occs u ++ flat_map occs xs
+  | _ => []
+  end.
+Definition use_edges (P : prog) : list ((N * N) * (N * N)) :=
+  flat_map (fun mds : N * list decl =>
+    flat_map (fun idd : N * decl => map (fun y => ((fst mds, fst idd), y)) (occs (d_rhs (snd idd)))) (enum (snd mds))) (enum P).
+Definition run_edges (x : sx) : sx :=
+  match dprog x with
+  | None => L [A 4%Z]
+  | Some (P, _) => L (map (fun xy : (N * N) * (N * N) => L [eN (fst (fst xy)); eN (snd (fst xy)); eN (fst (snd xy)); eN (snd (snd xy))]) (use_edges P))
+  end.
+
 (** * the document tie: evaluate, build the document (Model/Builder.v), print it as an s-expression *)
 Fixpoint ejson (j : json) : sx :=
   match j with
